@@ -94,6 +94,20 @@ Proof.
   rewrite H, T, D in K. exact K.
 Qed.
 
+Lemma effects_ok_b_true : effects_ok_b = true.
+Proof. vm_compute. reflexivity. Qed.
+
+Lemma effect_beq_eq : forall a b, effect_beq a b = true -> a = b.
+Proof. destruct a, b; cbn; intros H; try discriminate; try reflexivity. apply st_beq_eq in H. subst. reflexivity. Qed.
+
+Lemma documented_effects_thm : forall s d o effs s', trans s d o = Some effs -> target effs = Some s' ->
+  dir_ok d s = true -> incl (required s d o s') effs.
+Proof.
+  intros s d o effs s' H T D r Hin. pose proof (forall_sdo_spec _ effects_ok_b_true s d o) as K. cbv beta in K.
+  rewrite H, T, D in K. cbn [implb] in K. rewrite forallb_forall in K. specialize (K r Hin). apply existsb_exists in K.
+  destruct K as [x [Hx E]]. apply effect_beq_eq in E. subst. exact Hx.
+Qed.
+
 (* ---------- effect atoms ---------- *)
 Lemma apply_eff_state : forall c t e, (forall s, e <> Transition s) ->
   t_state (fst (apply_eff c t e)) = t_state t /\ snd (apply_eff c t e) = [].
@@ -314,7 +328,6 @@ Lemma concurrent_captured_refuted :
   exists t es a b, In (OEdge a b) (snd (run false (idle t) es)) /\ documented a b = false.
 Proof.
   exists f01_transfer, f01_schedule, ABORTED, PAUSED. split; [|vm_compute; reflexivity].
-  assert (E : trans QUEUED Download OAbort = Some [CancelTasks; RemoveLocalFile; SetAbortReason; Transition ABORTED] \/ True) by (right; exact I).
   vm_compute. tauto.
 Qed.
 
@@ -341,11 +354,6 @@ Fixpoint drain (c : call) (t : transfer) (ed : list edge) (k : option (list micr
                | S n' => let '(t1, ed1, k1) := resume c t k' in drain c t1 (ed ++ ed1) k1 n'
                end
   end.
-
-Lemma full_app_edges : forall effs c t, True -> forall t1 ed1, full c t effs = (t1, ed1) -> True.
-Proof. auto. Qed.
-
-Definition blocked_len (k : list micro) : nat := 2 * length k.
 
 Lemma exec_full : forall k c t t' ed k', exec c t (map MEff k) = (t', ed, k') ->
   forall n, 2 * length k <= n ->
